@@ -199,28 +199,30 @@ Record track := mkTrack {
   tr_timeout : Z;
   tr_pending : list (bytes * event);            (* claims voted since the last EndBlocker *)
   tr_taken : list (bytes * N * Z * bytes);      (* (chain, id, hub amount taken at send time, denom) *)
-  tr_oracle : oracle_in
+  tr_oracle : oracle_in;
+  tr_signers : list (bytes * Z)
 }.
 
 Definition track_step (o : val) (prev cur : obs) (t : track) : track :=
   let kind := op_kind o in
   if kind =? 7 then mkTrack (map dec_token (vL (vnth 1 o))) (tr_time t) (tr_timeout t) (tr_pending t) (tr_taken t)
                             (mkOracle (map dec_pair_bz (vL (vnth 3 o))) (map dec_pair_bz (vL (vnth 4 o))))
-  else if kind =? 5 then mkTrack (tr_tokens t) (vI (vnth 2 o)) (tr_timeout t) (tr_pending t) (tr_taken t) (tr_oracle t)
-  else if kind =? 4 then mkTrack (tr_tokens t) (tr_time t) (tr_timeout t) (tr_pending t ++ [(vB (vnth 1 o), dec_event (vnth 2 o))]) (tr_taken t) (tr_oracle t)
-  else if kind =? 6 then mkTrack (tr_tokens t) (tr_time t) (tr_timeout t) [] (tr_taken t) (tr_oracle t)
+                            (map dec_pair_bz (vL (vnth 2 o)))
+  else if kind =? 5 then mkTrack (tr_tokens t) (vI (vnth 2 o)) (tr_timeout t) (tr_pending t) (tr_taken t) (tr_oracle t) (tr_signers t)
+  else if kind =? 4 then mkTrack (tr_tokens t) (tr_time t) (tr_timeout t) (tr_pending t ++ [(vB (vnth 1 o), dec_event (vnth 2 o))]) (tr_taken t) (tr_oracle t) (tr_signers t)
+  else if kind =? 6 then mkTrack (tr_tokens t) (tr_time t) (tr_timeout t) [] (tr_taken t) (tr_oracle t) (tr_signers t)
   else if (kind =? 1) && (ob_code cur =? 0) then
     (* the entry created by this send *)
     let chain := vB (vnth 2 o) in
     let news := filter (fun e => beqb (s_chain e) chain && negb (in_entries e (all_entries prev))) (ob_pool cur) in
     match news with
     | e :: _ => mkTrack (tr_tokens t) (tr_time t) (tr_timeout t) (tr_pending t)
-                        ((chain, s_id e, vI (vnth 5 o) + vI (vnth 6 o), vB (vnth 4 o)) :: tr_taken t) (tr_oracle t)
+                        ((chain, s_id e, vI (vnth 5 o) + vI (vnth 6 o), vB (vnth 4 o)) :: tr_taken t) (tr_oracle t) (tr_signers t)
     | [] => t
     end
   else t.
 
-Definition track0 (timeout : Z) : track := mkTrack [] 0 timeout [] [] (mkOracle [] []).
+Definition track0 (timeout : Z) : track := mkTrack [] 0 timeout [] [] (mkOracle [] []) [].
 
 Definition token_dec (toks : list token_info) (chain ext : bytes) : option Z :=
   match ext_to_token toks chain ext with Some ti => Some (ti_dec ti) | None => None end.
@@ -446,5 +448,83 @@ Definition mon_C11 (c impl : val) : val :=
   VL (mon_fold (fun step o prev cur (t : track) =>
                   let t1 := if (op_kind o =? 7) || (op_kind o =? 5) then track_step o prev cur t else t in
                   let r := mon_C11_step step o prev cur t1 in
+                  (r, if (op_kind o =? 7) || (op_kind o =? 5) then t1 else track_step o prev cur t1))
+               0 (vL (vnth 2 c)) (vL impl) empty_obs (track0 0)).
+
+(* ---------- C19 ---------- *)
+Definition k_c19_record := str [67;49;57;47;102;101;101;45;114;101;99;111;114;100].                         (* C19/fee-record *)
+Definition k_c19_record_gt18 := str [67;49;57;47;114;101;102;117;110;100;45;101;120;99;101;101;100;115;45;102;101;101;45;100;101;99;105;109;97;108;115;45;103;116;45;49;56]. (* C19/refund-exceeds-fee-decimals-gt-18 *)
+Definition k_c19_over := str [67;49;57;47;112;97;105;100;45;111;117;116;45;109;111;114;101;45;116;104;97;110;45;99;111;108;108;101;99;116;101;100]. (* C19/paid-out-more-than-collected *)
+Definition k_c19_prop := str [67;49;57;47;99;111;109;109;105;115;115;105;111;110;45;110;111;116;45;112;114;111;112;111;114;116;105;111;110;97;108]. (* C19/commission-not-proportional *)
+
+Definition c19_records (step : nat) (prev cur : obs) (t : track) (chain coin : bytes) (bn : N) : list val :=
+  match find (fun b => beqb (b_chain b) chain && beqb (b_ext b) coin && N.eqb (b_nonce b) bn) (ob_batches prev),
+        ext_to_token (tr_tokens t) chain coin with
+  | Some b, Some ti =>
+      if existsb (batch_same b) (ob_batches cur) then []      (* execution dropped: C13's monitor *)
+      else
+        flat_map (fun e =>
+                    if Nat.ltb 1 (count_hash (s_txhash e) (all_entries prev)) then [] else
+                    match find (fun r : bytes * (Z * Z) => beqb (fst r) (s_txhash e)) (ob_feerec cur) with
+                    | Some (_, (vc, ef)) =>
+                        if (vc =? s_comm e) && (0 <=? ef) && (ef <=? s_fee e) then []
+                        else [viol (if 18 <? ti_dec ti then k_c19_record_gt18 else k_c19_record) step [VB (s_txhash e); VI ef; VI (s_fee e)]]
+                    | None => [viol k_c19_record step [VB (s_txhash e)]]
+                    end) (b_txs b)
+  | _, _ => []
+  end.
+
+Definition mon_C19_step (step : nat) (o : val) (prev cur : obs) (t : track) : list val :=
+  if op_kind o =? 6 then
+    (* (a) fee records of every batch executed in this block *)
+    flat_map (fun ce : bytes * event =>
+                match snd ce with
+                | EvBatchExecuted _ coin bn _ _ _ _ => c19_records step prev cur t (fst ce) coin bn
+                | _ => []
+                end) (tr_pending t)
+    ++
+    match tr_pending t with
+    | [(chain, EvBatchExecuted _ coin bn _ _ _ payer)] =>
+        match find (fun b => beqb (b_chain b) chain && beqb (b_ext b) coin && N.eqb (b_nonce b) bn) (ob_batches prev),
+              ext_to_token (tr_tokens t) chain coin with
+        | Some b, Some ti =>
+            if existsb (batch_same b) (ob_batches cur) then []
+            else
+            let d := ti_dec ti in
+            let total_fee := to_hub d (zsum (map s_fee (b_txs b))) in
+            let total_comm := to_hub d (zsum (map s_comm (b_txs b))) in
+            (* (b) what is paid out (new Minter transfers) stays within what was collected *)
+            match denom_to_token (tr_tokens t) b_minter (ti_denom ti) with
+            | Some mt =>
+                let news := filter (fun e => beqb (s_chain e) b_minter && negb (in_entries e (all_entries prev))) (ob_pool cur) in
+                let paid tag := zsum (map (fun e => if beqb (s_txhash e) tag then s_token e else 0) news) in
+                (* amounts are in Minter units of the denom: compare in the fine unit 10^-24 *)
+                (if (ext_val (ti_dec mt) (paid tag_commission) <=? hub_val total_comm)
+                    && (ext_val (ti_dec mt) (paid tag_fee) <=? hub_val total_fee) then []
+                 else [viol k_c19_over step [VI (paid tag_commission); VI total_comm; VI (paid tag_fee); VI total_fee]])
+                ++
+                (* (c) commission shares: floor(total * power / total power), converted to Minter units *)
+                (if 0 <? total_comm then
+                   let tp := zsum (map snd (tr_signers t)) in
+                   let want := flat_map (fun v : bytes * Z =>
+                                           let a := commission_share total_comm (snd v) tp in
+                                           if 0 <? a then [(fst v, to_ext (ti_dec mt) a)] else []) (tr_signers t) in
+                   let got := map (fun e => (s_recipient e, s_token e)) (filter (fun e => beqb (s_txhash e) tag_commission) news) in
+                   if same_lists (fun x : bytes * Z => VL [VB (fst x); VI (snd x)]) want got then []
+                   else [viol k_c19_prop step [VL (map (fun x : bytes * Z => VL [VB (fst x); VI (snd x)]) want);
+                                               VL (map (fun x : bytes * Z => VL [VB (fst x); VI (snd x)]) got)]]
+                 else [])
+            | None => []
+            end
+        | _, _ => []
+        end
+    | _ => []
+    end
+  else [].
+
+Definition mon_C19 (c impl : val) : val :=
+  VL (mon_fold (fun step o prev cur (t : track) =>
+                  let t1 := if (op_kind o =? 7) || (op_kind o =? 5) then track_step o prev cur t else t in
+                  let r := mon_C19_step step o prev cur t1 in
                   (r, if (op_kind o =? 7) || (op_kind o =? 5) then t1 else track_step o prev cur t1))
                0 (vL (vnth 2 c)) (vL impl) empty_obs (track0 0)).
